@@ -16,6 +16,8 @@ ENV = {"CARGO_NET_OFFLINE": "true", "CARGO_TERM_COLOR": "never"}
 
 
 _COMMON = ["spec.rs", "state.rs", "h_arena.rs"]  # every harness module imports helpers from these
+# helpers a module imports from another harness module (`use super::h_coll::{..}`)
+_DEPS = {"h_stub": ["h_coll.rs"], "h_coll2": ["h_coll.rs"]}
 
 
 def inputs_hash(harness=None):
@@ -25,9 +27,11 @@ def inputs_hash(harness=None):
     inc = os.path.join(VERIF, "kani", "incrate")
     files = [os.path.join(inc, f) for f in _COMMON]
     if harness:
-        own = os.path.join(inc, harness.split("::")[0] + ".rs")
-        if own not in files:
-            files.append(own)
+        mod = harness.split("::")[0]
+        for f in [mod + ".rs"] + _DEPS.get(mod, []):
+            own = os.path.join(inc, f)
+            if own not in files:
+                files.append(own)
     else:
         files = [inc]
     return sha(hash_tree([os.path.join(REPO, "src"), os.path.join(REPO, "Cargo.toml"), os.path.join(REPO, "Cargo.lock")] + files) + ver)
